@@ -36,7 +36,7 @@ EXTRA_MODELS = ["Target"]
 ASSUMPTIONS = [
     "the reference target (Spec/TargetCore.v + Spec/TargetLogix.v) and Spec/Expect.v are the specification of the controller",
     "request strings spell tag and member names as the controller does: README.rst documents that tag names for read and write are case-sensitive (the reference, like Logix, is case-insensitive; a case variant is not demanded)",
-    "structure templates list their members in offset order, LEN/DATA strings have LEN at offset 0 and DATA at offset 4 (as Logix does)",
+    "LEN/DATA strings have LEN at offset 0 and DATA at offset 4 (as Logix does)",
     "the encapsulation around a connected message (header, CPF, sequence count) is C11 / C17; here the message after the sequence count is compared",
     "error texts of failed Tags are C13; here a Tag carries whether it has an error",
     "REAL / LREAL values are compared by their IEEE bit pattern; any NaN equals any NaN",
